@@ -7,6 +7,8 @@
     f64-be-read | f64-le-read | f64-be-write | f64-le-write                    the same with 16 hex digits
     replace-w32-le | replace-w32-be | replace-w64-le | replace-w64-be       items: bit patterns -> file bytes
     replace-r32-le | replace-r32-be | replace-r64-le | replace-r64-be       file bytes -> bit patterns
+    peak-be-read                   4 bytes of an AIFF PEAK value -> the double SFC_GET_MAX_ALL_CHANNELS reports ((double) float32_be_read)
+    mat4-be-read                   8 bytes of a MAT4 sample-rate field -> psf_lrint (double64_be_read) as 8 hex (finite values)
     swap16 | swap32 | swap64       items: unsigned values -> ENDSWAP_nn
     put-be16 | put-be32 | put-be64 items: two's-complement values -> bytes
     get-be16 | get-be24 | get-le24 | get-be32 | get-le32 | get-be64 | get-le64   bytes -> value (4 / 8 / 16 hex)
@@ -37,6 +39,9 @@ def routine (name : String) : Option (Nat × (Nat → String)) :=
   | "replace-r32-be" => some (8, fun v => String.join ((replaceReadF32 true (bytesOf 4 v)).map (hexFixed 8)))
   | "replace-r64-le" => some (16, fun v => String.join ((replaceReadF64 false (bytesOf 8 v)).map (hexFixed 16)))
   | "replace-r64-be" => some (16, fun v => String.join ((replaceReadF64 true (bytesOf 8 v)).map (hexFixed 16)))
+  | "peak-be-read" => some (8, fun v => hexFixed 16 (Float.f32to64 (f32BeRead (bytesOf 4 v))))
+  | "mat4-be-read" => some (16, fun v =>
+      hexFixed 8 (wrapU 32 (Float.lrintInt .sse2 (Float.f64.toDy (f64BeRead (bytesOf 8 v))))))
   | "swap16" => some (4, fun v => hexFixed 4 (endswap16 v))
   | "swap32" => some (8, fun v => hexFixed 8 (endswap32 v))
   | "swap64" => some (16, fun v => hexFixed 16 (endswap64 v))
